@@ -77,7 +77,7 @@ func evaluate(sc *Scenario, out *RunResult, prog Program) {
 		case "delivered":
 			// requests one goroutine delivered one after the other are in that order on the connection
 			if g := cbGroup[argS(e, 0)]; g != "" {
-				k := fmt.Sprint(e.G) + "/" + g
+				k := fmt.Sprint(e.G) + "@" + argS(e, 1) + "/" + g // (the order is promised per connection)
 				deliveredBy[k] = append(deliveredBy[k], argS(e, 0))
 			}
 		case "hr.recv":
